@@ -305,7 +305,18 @@ fn edit(rng: &mut Rng, cur: &[u8], m: &Model, n: usize, snapshots: &[Vec<u8>], s
     let derived: Vec<usize> = f.items.iter().enumerate().filter(|(_, i)| !is_header(i) && ns_name(i).map(|nn| u_names.contains(&nn)).unwrap_or(false)).map(|(k, _)| k).collect();
     let kind: &'static str;
     let desc: String;
-    match rng.below(10) {
+    match rng.below(11) {
+        10 => {
+            kind = "add-file-attr";
+            let attr: syn::Attribute = match rng.below(4) {
+                0 => syn::parse_quote!(#![allow(dead_code)]),
+                1 => syn::parse_quote!(#![allow(non_camel_case_types, clippy::all)]),
+                2 => syn::parse_quote!(#![doc = " Module documentation written by the user."]),
+                _ => syn::parse_quote!(#![cfg_attr(test, allow(unused))]),
+            };
+            f.attrs.push(attr);
+            desc = format!("add file-level attribute #{}", f.attrs.len());
+        }
         0..=3 => {
             if derived.is_empty() {
                 return None;
@@ -437,8 +448,16 @@ pub fn check_regen(m: &Model, p_bytes: &[u8], q_bytes: &[u8], st: &mut Stats) ->
             return Some(Finding { rule: "K1", what: "regenerated actions file does not parse as Rust".into(), pattern: "unparsable-output".into() });
         }
     };
-    // K1 preservation
+    // K1 preservation: file-level inner attributes / module docs and shebang
     bump(&mut st.rules_checked, "K1");
+    let file_attrs = |f: &syn::File| prettyplease::unparse(&syn::File { shebang: None, attrs: f.attrs.clone(), items: vec![] });
+    if file_attrs(&p) != file_attrs(&q) || p.shebang != q.shebang {
+        return Some(Finding {
+            rule: "K1",
+            what: format!("file-level attributes / module documentation changed by regeneration: before {:?}, after {:?}", file_attrs(&p).chars().take(120).collect::<String>(), file_attrs(&q).chars().take(120).collect::<String>()),
+            pattern: "file-attrs-changed".into(),
+        });
+    }
     if q.items.len() < p.items.len() {
         return Some(Finding { rule: "K1", what: format!("file had {} items before regeneration and {} after", p.items.len(), q.items.len()), pattern: "items-lost".into() });
     }
